@@ -205,18 +205,16 @@ def expand_relative_ignore_paths(folder_io, relative_paths):
 
 
 def recurse_find_python_folders_and_files(folder_io, except_paths=()):
-    except_paths = set(except_paths)
+    # The entries of a .gitignore are strings, while callers and file_io.path
+    # use pathlib.Path. Compare strings with strings.
+    except_paths = set(str(p) for p in except_paths)
     except_paths_relative = set()
 
     for root_folder_io, folder_ios, file_ios in folder_io.walk():
-        # Delete folders that we don't want to iterate over.
+        # A .gitignore also applies to the files next to it, so it has to be
+        # read before any of them is yielded.
         for file_io in file_ios:
-            path = file_io.path
-            if path.suffix in ('.py', '.pyi'):
-                if path not in except_paths:
-                    yield None, file_io
-
-            if path.name == '.gitignore':
+            if file_io.path.name == '.gitignore':
                 ignored_paths_abs, ignored_paths_rel = gitignored_paths(
                     root_folder_io, file_io
                 )
@@ -227,6 +225,14 @@ def recurse_find_python_folders_and_files(folder_io, except_paths=()):
             root_folder_io, except_paths_relative
         )
 
+        for file_io in file_ios:
+            path = file_io.path
+            if path.suffix in ('.py', '.pyi'):
+                if str(path) not in except_paths \
+                        and str(path) not in except_paths_relative_expanded:
+                    yield None, file_io
+
+        # Delete folders that we don't want to iterate over.
         folder_ios[:] = [
             folder_io
             for folder_io in folder_ios
